@@ -855,14 +855,18 @@ func (g *schemaGenerator) generateAllOfType(allOf []*schemas.Type, scope nameSco
 	}
 
 	seen := make(map[*schemas.Type]bool, len(rAllOf))
+	branches := make([]*schemas.Type, 0, len(rAllOf))
 
 	for _, typ := range rAllOf {
 		if seen[typ] {
-			// The same definition listed twice is not a cycle.
+			// The same definition listed twice is not a cycle, and merging a
+			// schema into itself would double every list it holds, in place.
 			continue
 		}
 
 		seen[typ] = true
+
+		branches = append(branches, typ)
 
 		isCycle, cleanupCycle, cycleErr := g.detectCycle(typ)
 		if cycleErr != nil {
@@ -876,7 +880,7 @@ func (g *schemaGenerator) generateAllOfType(allOf []*schemas.Type, scope nameSco
 		}
 	}
 
-	allOfType, err := schemas.AllOf(rAllOf)
+	allOfType, err := schemas.AllOf(branches)
 	if err != nil {
 		return nil, fmt.Errorf("could not merge allOf types: %w", err)
 	}
